@@ -90,7 +90,7 @@ inductive Err
   | invalidNumCommittees | invalidChainId | rejectProposal | nonSubsidizedCommittee
   | invalidQCCommitteeHeight | invalidQCRootChainHeight | invalidDoubleSigner | invalidDoubleSignHeights
   | invalidPercentAllocation | invalidParam | unknownParam | unknownParamSpace | invalidArgument
-  | invalidBlockRange | invalidAddress
+  | invalidBlockRange | invalidAddress | invalidSellOrder
   deriving DecidableEq, Repr
 
 def Err.code : Err → String
@@ -108,7 +108,7 @@ def Err.code : Err → String
   | .invalidPercentAllocation => errInvalidPercentAllocation | .invalidParam => errInvalidParam
   | .unknownParam => errUnknownParam | .unknownParamSpace => errUnknownParamSpace
   | .invalidArgument => errInvalidArgument | .invalidBlockRange => errInvalidBlockRange
-  | .invalidAddress => errInvalidAddress
+  | .invalidAddress => errInvalidAddress | .invalidSellOrder => errInvalidSellOrder
 
 abbrev M := Except Err
 
@@ -1072,8 +1072,21 @@ def genesisValidatorsError (seen : List Addr) : List GenesisValidator → Option
     else if hasDup g.val.committees then some .invalidNumCommittees
     else genesisValidatorsError (g.addr :: seen) rest
 
+/-- a genesis order book as far as the ledger is concerned: the chain id and the `AmountForSale` of its sell orders
+(order ids are not modelled; the harness never repeats one inside a book) -/
+abbrev GenesisBook := Nat × List Nat
+
+/-- the order-book part of `ValidateGenesisState`: a chain listed twice or a book without orders is rejected -/
+def validateBooks (seen : List Nat) : List GenesisBook → M Unit
+  | [] => .ok ()
+  | b :: rest =>
+    if seen.contains b.1 then .error .invalidSellOrder
+    else if b.2.length = 0 then .error .invalidSellOrder
+    else validateBooks (b.1 :: seen) rest
+
 /-- `ValidateGenesisState` on the modelled part of the genesis file -/
-def validateGenesis (params : Params) (accounts : List (Addr × Nat)) (pools : List (Nat × Nat)) (vals : List GenesisValidator) : M Unit :=
+def validateGenesis (params : Params) (accounts : List (Addr × Nat)) (pools : List (Nat × Nat)) (vals : List GenesisValidator)
+    (books : List GenesisBook := []) : M Unit :=
   match params.checkVal with
   | .error e => .error e
   | .ok _ =>
@@ -1084,13 +1097,22 @@ def validateGenesis (params : Params) (accounts : List (Addr × Nat)) (pools : L
       | none =>
         if hasDup (accounts.map (·.1)) then .error .invalidAddress
         else if hasDup (pools.map (·.1)) then .error .invalidChainId
-        else .ok ()
+        else validateBooks [] books
 
-/-- `NewStateFromGenesis` (accounts, pools, validators, retired committees; no order books) at height 1.
-Protocol-gated genesis writes look at the height the state machine has while loading: 0. -/
+/-- `SetOrderBooks` for one sell order of chain `chain`: the running total is guarded, the credit to the chain's swap
+escrow pool is the unguarded `PoolAdd` — ON TOP of whatever `SetPools` wrote for that pool -/
+def genesisOrder (chain : Nat) (L : Ledger) (amount : Nat) : M Ledger :=
+  if L.supply.total > MAXU - amount then .error .invalidAmount
+  else .ok (poolAdd { L with supply := { L.supply with total := L.supply.total + amount } } (chain + escrowPoolAddend) amount)
+
+def genesisBook (L : Ledger) (b : GenesisBook) : M Ledger := b.2.foldlM (genesisOrder b.1) L
+
+/-- `NewStateFromGenesis` (accounts, pools, validators, order books, retired committees) at height 1, in the order of
+the source (`Canopy.Gen.LedgerFacts.genesisSteps`): `SetPools` overwrites, `SetOrderBooks` adds, so the listed pools
+come first. Protocol-gated genesis writes look at the height the state machine has while loading: 0. -/
 def genesis (cfg : Config) (params : Params) (accounts : List (Addr × Nat)) (pools : List (Nat × Nat))
-    (vals : List GenesisValidator) (retired : List Nat) : M Ledger :=
-  match validateGenesis params accounts pools vals with
+    (vals : List GenesisValidator) (retired : List Nat) (books : List GenesisBook := []) : M Ledger :=
+  match validateGenesis params accounts pools vals books with
   | .error e => .error e
   | .ok _ =>
     match accounts.foldlM genesisAccount ({ cfg := cfg, params := params, height := 0 } : Ledger) with
@@ -1099,6 +1121,25 @@ def genesis (cfg : Config) (params : Params) (accounts : List (Addr × Nat)) (po
       | .error e => .error e
       | .ok L2 => match vals.foldlM genesisValidator L2 with
         | .error e => .error e
-        | .ok L3 => .ok { L3 with retired := retired, height := 1 }
+        | .ok L3 => match books.foldlM genesisBook L3 with
+          | .error e => .error e
+          | .ok L4 => .ok { L4 with retired := retired, height := 1 }
+
+/-- the composition the seeded change pending4-C04 produces (`SetOrderBooks` moved in front of `SetPools`): the listed
+pool overwrites the order credit while both stay counted in the total. Kept as a witness (`Props/C04`). -/
+def genesisBooksBeforePools (cfg : Config) (params : Params) (accounts : List (Addr × Nat)) (pools : List (Nat × Nat))
+    (vals : List GenesisValidator) (retired : List Nat) (books : List GenesisBook) : M Ledger :=
+  match validateGenesis params accounts pools vals books with
+  | .error e => .error e
+  | .ok _ =>
+    match accounts.foldlM genesisAccount ({ cfg := cfg, params := params, height := 0 } : Ledger) with
+    | .error e => .error e
+    | .ok L1 => match books.foldlM genesisBook L1 with
+      | .error e => .error e
+      | .ok L2 => match pools.foldlM genesisPool L2 with
+        | .error e => .error e
+        | .ok L3 => match vals.foldlM genesisValidator L3 with
+          | .error e => .error e
+          | .ok L4 => .ok { L4 with retired := retired, height := 1 }
 
 end Canopy.Ledger
